@@ -8,6 +8,8 @@ use syn::visit::Visit;
 use syn::*;
 
 pub enum Cont<'b> {
+    /// bind the block's value to a pattern, then continue (for `let p = match/if { ..return.. }`)
+    LetBind(&'b Pat, Option<Ty>, &'b [Stmt], &'b Cont<'b>),
     Value(Option<Ty>),
     Tuple(Vec<String>),
     Seq(&'b [Stmt], &'b Cont<'b>),
@@ -191,6 +193,7 @@ fn finish(cx: &mut Ctx, k: &Cont) -> R<Tr> {
             Ok(Tr::new(s, t))
         }
         Cont::Seq(rest, k2) => tr_stmts(cx, rest, k2),
+        Cont::LetBind(..) => Err("let-bound block without value".into()),
         Cont::LoopNext => {
             let lc = cx.loop_ctx.last().unwrap().clone();
             let args: Vec<String> = lc.state.iter().map(|(r, _, _)| cx.lookup(r).map(|x| x.0).unwrap_or(r.clone())).collect();
@@ -249,7 +252,23 @@ pub fn tr_stmts(cx: &mut Ctx, stmts: &[Stmt], k: &Cont) -> R<Tr> {
                 let is_res = matches!(inner.ty, Ty::Res(..));
                 let pat = bind_let_pat(cx, &l.pat, &vty)?;
                 let r = tr_stmts(cx, rest, k)?;
-                let err = if is_res { emit_return(cx, "(.error e_)".into()) } else { emit_return(cx, "none".into()) };
+                let conv = match (&inner.ty, &cx.ret) {
+                    (Ty::Res(_, e1), Ty::Res(_, e2)) if e1 != e2 => {
+                        if let Ty::Enum(n2) = &**e2 {
+                            let k = format!("{}::from", n2);
+                            if cx.idx.fns.contains_key(&k) {
+                                cx.deps.insert(k);
+                                format!("(.error ({}.from (α := α) e_))", n2)
+                            } else {
+                                return Err("? with error conversion".into());
+                            }
+                        } else {
+                            return Err("? with error conversion".into());
+                        }
+                    }
+                    _ => "(.error e_)".to_string(),
+                };
+                let err = if is_res { emit_return(cx, conv) } else { emit_return(cx, "none".into()) };
                 let s = if is_res {
                     format!("match {} with\n | .error e_ => {}\n | .ok {} =>\n{}", inner.s, err, pat, r.s)
                 } else {
@@ -258,6 +277,11 @@ pub fn tr_stmts(cx: &mut Ctx, stmts: &[Stmt], k: &Cont) -> R<Tr> {
                 return Ok(Tr { s: format!("({})", s), ty: r.ty, prop: false });
             }
             let hint = declared.clone().or_else(|| None);
+            if has_jump_expr(&init.expr) && matches!(strip(&init.expr), Expr::Match(_) | Expr::If(_) | Expr::Block(_)) {
+                let lb = Cont::LetBind(&l.pat, declared.clone(), rest, k);
+                let st = [Stmt::Expr((*init.expr).clone(), None)];
+                return tr_stmts_branching(cx, &st[0], &lb);
+            }
             let v = tr_expr(cx, &init.expr, hint.as_ref())?;
             let vty = match (&declared, &v.ty) {
                 (Some(d), _) => d.clone(),
@@ -272,6 +296,18 @@ pub fn tr_stmts(cx: &mut Ctx, stmts: &[Stmt], k: &Cont) -> R<Tr> {
             let is_last = rest.is_empty();
             // tail expression
             if is_last && semi.is_none() {
+                if let Cont::LetBind(pat, declared, rest2, k2) = k {
+                    if !matches!(e, Expr::Return(_) | Expr::Break(_) | Expr::Continue(_)) && !(matches!(e, Expr::Macro(m) if is_panic_macro(&m.mac))) {
+                        if has_jump_expr(e) && matches!(strip(e), Expr::Match(_) | Expr::If(_) | Expr::Block(_)) {
+                            return tr_stmts_branching(cx, s, k);
+                        }
+                        let v = tr_expr(cx, e, declared.as_ref())?;
+                        let vty = declared.clone().unwrap_or(v.ty.clone());
+                        let p = bind_let_pat(cx, pat, &vty)?;
+                        let r = tr_stmts(cx, rest2, k2)?;
+                        return Ok(Tr { s: format!("let {} := {}\n{}", p, v.val(), r.s), ty: r.ty, prop: r.prop });
+                    }
+                }
                 if let Cont::Value(t) = k {
                     if !matches!(e, Expr::Return(_) | Expr::While(_) | Expr::Loop(_) | Expr::ForLoop(_) | Expr::Break(_) | Expr::Continue(_))
                         && !(matches!(e, Expr::If(i) if i.else_branch.is_none()))
@@ -287,6 +323,55 @@ pub fn tr_stmts(cx: &mut Ctx, stmts: &[Stmt], k: &Cont) -> R<Tr> {
             }
             stmt_expr(cx, e, rest, k)
         }
+    }
+}
+
+/// A branching expression in tail position of a block whose continuation is `k`
+/// (each branch's value flows into `k`).
+fn tr_stmts_branching(cx: &mut Ctx, s: &Stmt, k: &Cont) -> R<Tr> {
+    let e = match s {
+        Stmt::Expr(e, _) => e,
+        _ => return Err("branching".into()),
+    };
+    match strip(e) {
+        Expr::If(i) if i.else_branch.is_some() && !matches!(strip(&i.cond), Expr::Let(_)) => {
+            let c = tr_expr(cx, &i.cond, Some(&Ty::Bool))?;
+            let a = with_scopes_saved(cx, |cx| {
+                cx.push();
+                tr_stmts(cx, &i.then_branch.stmts, k)
+            })?;
+            let els = &i.else_branch.as_ref().unwrap().1;
+            let b = with_scopes_saved(cx, |cx| {
+                let st = [Stmt::Expr((**els).clone(), None)];
+                tr_stmts_branching(cx, &st[0], k)
+            })?;
+            Ok(Tr::new(format!("(if {} then\n{}\n else\n{})", c.as_prop(), a.val(), b.val()), join_ty(&a.ty, &b.ty)))
+        }
+        Expr::Match(m) => {
+            let scrut = tr_expr(cx, &m.expr, None)?;
+            let mut arms = vec![];
+            let mut ty = Ty::Never;
+            for arm in &m.arms {
+                if arm.guard.is_some() {
+                    return Err("match guard".into());
+                }
+                let r = with_scopes_saved(cx, |cx| {
+                    cx.push();
+                    let pat = tr_pat(cx, &arm.pat, &scrut.ty)?;
+                    let st = [Stmt::Expr((*arm.body).clone(), None)];
+                    let body = tr_stmts_branching(cx, &st[0], k)?;
+                    Ok((pat, body))
+                })?;
+                ty = join_ty(&ty, &r.1.ty);
+                arms.push(format!(" | {} =>\n{}", r.0, r.1.val()));
+            }
+            Ok(Tr::new(format!("(match {} with\n{})", scrut.val(), arms.join("\n")), ty))
+        }
+        Expr::Block(b) => with_scopes_saved(cx, |cx| {
+            cx.push();
+            tr_stmts(cx, &b.block.stmts, k)
+        }),
+        _ => tr_stmts(cx, std::slice::from_ref(s), k),
     }
 }
 
